@@ -1074,6 +1074,10 @@ func (s *Sim) idleTick() time.Duration {
 	}
 }
 
+// IdleFor returns how long only the clock has been able to make progress (0 while anything else was enabled at the
+// last scheduling decision).
+func (s *Sim) IdleFor() time.Duration { return s.idleFor }
+
 // Heal lifts stalls, re-opens nodes and disables probabilistic faults (start of the drain phase).
 func (s *Sim) Heal() {
 	for _, l := range s.Links {
